@@ -170,11 +170,17 @@ def run(prog, rep):
             fr = frees[0]
             nobj += 1
             released = released_fields(u, fr, T)
+            skipped = unreleased_paths(u, fr, T, [f_ for f_ in flds if (rec, f_) not in OWN_EXCEPTIONS and f_ in released])
             for fld, sites in sorted(flds.items()):
                 if (rec, fld) in OWN_EXCEPTIONS:
                     rep.note("C20.1 exception %s.%s: %s" % (rec, fld, OWN_EXCEPTIONS[(rec, fld)]))
                     continue
                 ok = fld in released
+                if ok and fld in skipped:
+                    rep.ob("C20.1", fr, "owned:%s.%s" % (rec, fld), False,
+                           "line %d: %s returns on a path where %s.%s was not handed to its release although it is not known to be NULL / invalid there (a guard that lets the "
+                           "valid case through unreleased): every object of this type leaks it" % (skipped[fld], fr.name, rec, fld), skipped[fld])
+                    continue
                 rep.ob("C20.1", fr, "owned:%s.%s" % (rec, fld), ok,
                        "%s.%s (filled from %s in %s) is released by %s" % (rec, fld, sites[0][1], sites[0][0], fr.name) if ok else
                        "%s.%s is filled from %s (in %s, line %d) but %s never releases it: every object of this type leaks it" % (rec, fld, sites[0][1], sites[0][0], sites[0][2], fr.name),
@@ -392,6 +398,70 @@ def self_release(u, fn, k, memo):
             missing.append(fn.d.get("end", fn.loc)[0] if isinstance(fn.d.get("end"), list) else fn.loc[0])
     memo[key] = None if hits[0] == 0 else sorted(set(missing))
     return memo[key]
+
+
+def unreleased_paths(u, fr, T, fields):
+    """{field: line} for owned fields that some path through the free function (static helpers inlined) leaves unreleased although the
+    path does not know the field to be NULL / -1 (and the object itself is not NULL)."""
+    fv = fr.inlined()
+    p0 = fv.param_names()[0]
+    out = {}
+
+    def releasing(cn):
+        return cn in FIELD_RELEASERS or cn in T.release or (cn or "").endswith("_free") or (cn or "").endswith("_close") or cn in ("p_socket_close",)
+
+    def on_stmt(st, b, i, stmt):
+        facts, rel = st
+        for c in calls(stmt):
+            cn = c.get("callee")
+            for ai, a in enumerate(c.get("args", ())):
+                a2 = strip_casts(a)
+                if a2 is None:
+                    continue
+                if a2["k"] == "ref" and a2.get("decl") == "local":
+                    a2 = fv.resolve(a2) or a2
+                if a2["k"] == "member" and root_var(a2) == p0 and releasing(cn):
+                    top = a2
+                    while strip_casts(top["base"])["k"] == "member":
+                        top = strip_casts(top["base"])
+                    rel = rel | {top["field"]}
+                if a2["k"] == "ref" and a2["name"] == p0 and cn in u.functions and cn != fr.name:
+                    rel = rel | frozenset(released_fields(u, u.functions[cn], T))
+            if cn in ("p_socket_close",) and c.get("args") and root_var(c["args"][0]) == p0:
+                rel = rel | {"fd"}
+        # a field that is overwritten (reset to NULL by the clean-up) while it is neither released nor known to be invalid is lost there
+        for n in walk(stmt):
+            if n["k"] == "asg" and n.get("op") == "=":
+                l = strip_casts(n["l"])
+                if l is not None and l["k"] == "member" and strip_casts(l["base"])["k"] == "ref" and strip_casts(l["base"])["name"] == p0 and l["field"] in fields:
+                    check(facts, rel, line(n), only=l["field"])
+                    rel = rel | {l["field"]}           # judged here; what the field holds afterwards is the new value
+        if stmt["k"] == "ret":
+            check(facts, rel, line(stmt))
+            return []
+        return [(guards.transfer(facts, stmt), rel)]
+
+    def check(facts, rel, ln, only=None):
+        if guards.lookup(facts, p0) == 0:
+            return
+        for f_ in fields:
+            if f_ in rel or f_ in out or (only is not None and f_ != only):
+                continue
+            v = guards.lookup(facts, "%s->%s" % (p0, f_))
+            if v in (0, -1):
+                continue
+            out[f_] = ln
+
+    def on_edge(st, b, to, on):
+        f2 = guards.edge_assume(st[0], b, on)
+        return None if f2 is None else (f2, st[1])
+    try:
+        fl = Flow(fv, [(guards.EMPTY, frozenset())], on_stmt, on_edge, max_states=20000).run()
+    except AnalysisBroken:
+        return {}
+    for (parent, (facts, rel)) in fl.exit_states():
+        check(facts, rel, fr.loc[0])
+    return out
 
 
 DESC_CLOSERS = ("p_sys_close", "close", "closesocket")
